@@ -956,3 +956,42 @@ Proof.
   exists cfg_all, (firstn 2 blocked_hist), (nth 2 blocked_hist (quiet [])).
   destruct blocked_receive_hides_shutdown as (H1 & H2 & _). repeat split; assumption.
 Qed.
+
+(* optional handlers: what reaches the pool is the logical dispatch sequence with the events of missing handlers left out *)
+Definition msg_of (a : addr) (d : dispatch) : list msg :=
+  match d with Message b m => if N.eqb a b then [m] else [] | _ => [] end.
+
+Lemma msgs_proj_cons a d ds : msgs_of (proj a (d :: ds)) = msg_of a d ++ msgs_of (proj a ds).
+Proof.
+  change (proj a (d :: ds)) with (ev_of a d ++ proj a ds). rewrite msgs_of_app. f_equal.
+  destruct d as [b|b m|b]; cbn [ev_of msg_of]; destruct (N.eqb a b); reflexivity.
+Qed.
+
+Lemma proj_dispatched_msgs cfg a ds :
+  msgs_of (proj a (dispatched cfg ds)) = if has_message cfg then msgs_of (proj a ds) else [].
+Proof.
+  unfold dispatched. induction ds as [|d ds IH]; [now destruct (has_message cfg)|].
+  cbn [filter]. rewrite (msgs_proj_cons a d ds).
+  destruct (visible cfg d) eqn:V.
+  - rewrite msgs_proj_cons, IH. destruct d as [b|b m|b]; cbn [visible msg_of] in *; try reflexivity.
+    now rewrite V.
+  - rewrite IH. destruct d as [b|b m|b]; cbn [visible msg_of] in *; try reflexivity.
+    now rewrite V.
+Qed.
+
+Lemma thm_messages_any_handlers :
+  forall (cfg : config) (t0 : N) (hist : list inputs) (a : addr),
+    wf_histb cfg (init t0) hist = true ->
+    t_status (run cfg (init t0) hist) <> Stuck ->
+    has_message cfg = true ->
+    msgs_of (proj a (dispatched cfg (t_disp (run cfg (init t0) hist)))) = flat_map (delivered a) (executed cfg (init t0) hist).
+Proof.
+  intros cfg t0 hist a W NS HM. rewrite proj_dispatched_msgs, HM. now apply thm_messages_once_in_order.
+Qed.
+
+Lemma dispatched_all cfg ds :
+  has_connect cfg = true -> has_message cfg = true -> has_disconnect cfg = true -> dispatched cfg ds = ds.
+Proof.
+  intros H1 H2 H3. unfold dispatched. induction ds as [|d ds IH]; [reflexivity|].
+  cbn [filter]. destruct d; cbn [visible]; rewrite ?H1, ?H2, ?H3; now f_equal.
+Qed.
